@@ -128,6 +128,8 @@ class Interp(object):
                 return Bytes([("const", b) for b in e.value])
             if type(e.value) is int:
                 return Int(c0=e.value)
+            if isinstance(e.value, str):
+                return StrVal(e.value)
             raise Undecided("constant %r" % (e.value,))
         if isinstance(e, ast.Name):
             if e.id in env:
@@ -159,6 +161,8 @@ class Interp(object):
             if isinstance(e.func, ast.Attribute) and e.func.attr == "unpack":
                 u = self.ev(e.func, env)
                 return struct_unpack(u.fmt, self.ev(e.args[0], env))
+            if isinstance(e.func, ast.Attribute) and e.func.attr == "unpack":
+                pass
             f = self.ev(e.func, env)
             args = [self.ev(a, env) for a in e.args]
             if e.keywords:
